@@ -14,7 +14,9 @@ LEVEL_NOTE = ("The theorems are about coq/Model/Hub.v (one listener call = one s
               "'is dropped' is error_unregisters / remove_unregisters / dropped_listener_never_called_again. "
               "In the hub histories (kind hub) the websocket peer is replaced by the harness (constructor hook pkg/rest/verif_export.go: the harness "
               "plays WSWriter/WSReader); the `ws` stream runs the real WSReader/WSWriter and JSON encoding against a real gorilla/websocket client, "
-              "but the WebSocket framing, ping/pong and the 10 s write deadline are not modelled (the model's unit is the event handed to the writer). "
+              "Model/HubWriter.v carries the writer/reader goroutines as far as an executable model does: frames (one text frame per event, pings, close frame), failing writes, deferred Close; "
+              "the structure of WSWriter/WSReader, the hub operations, the selects and the Close order are read from the source by the translator (Gen/HubShape.v, Gen/HubWriter.v) and "
+              "the model is proved to follow them (exec_op_is_source_program, writer_arms_pinned, …); the bytes of the WebSocket framing and real time are not modelled. "
               "The tie between model and code is sampled (differential testing).")
 TECHNIQUE = "machine-checked proof in Coq + model/code correspondence check"
 DESIGN_REF = "DESIGN.md §4 C15"
